@@ -55,6 +55,29 @@ def grid(full: bool):
             i += 1
 
 
+def template_combos():
+    """a ResourceTemplate (and an inline resource) whose apiVersion / kind agree or disagree with apiConfig in
+    each combination, with and without overlays — every one on the create and the update path"""
+    for form in ("ref", "inline"):
+        for ver_differs, kind_differs in itertools.product((False, True), repeat=2):
+            for overlays in ([], ["ov0"], ["ov0", "ovRef"]):
+                for namespaced in (True, False):
+                    edits = ([{"layer": "template", "kind": "ver", "via": False}] if ver_differs else []) + \
+                            ([{"layer": "template", "kind": "kindOnly", "via": False}] if kind_differs else [])
+                    yield {"prefix": PREFIX, "namespaced": namespaced, "tmplForm": form, "edits": edits,
+                           "benign": list(overlays), "flags": {"owned": True}}
+
+
+def empty_namespace_grid():
+    """namespaced kinds whose apiConfig.namespace evaluates to "" / null / a missing input, while a layer names a
+    namespace of its own"""
+    for empty in ("", None, "missing"):
+        for layer in g.LAYERS:
+            for kind in ("namespace", "metaMap"):
+                yield {"prefix": PREFIX, "namespaced": True, "tmplForm": "inline", "nsEmpty": empty,
+                       "edits": [{"layer": layer, "kind": kind, "via": False}], "benign": [], "flags": {"owned": True}}
+
+
 def random_program(r) -> dict:
     namespaced = r.random() < 0.7
     prog = {"prefix": PREFIX, "namespaced": namespaced, "tmplForm": r.choice(("inline", "inline", "ref")),
@@ -69,6 +92,9 @@ def random_program(r) -> dict:
         prog["apiNs"] = "odd-ns"            # a namespace given for a cluster-scoped kind
     if r.random() < 0.15:
         prog["ownerNs"] = "elsewhere"
+    if namespaced and r.random() < 0.12:
+        prog.pop("apiNs", None)
+        prog["nsEmpty"] = r.choice(("", None, "missing"))
     for layer in g.LAYERS:
         if r.random() < 0.55:
             for _ in range(r.choice((1, 1, 2, 3))):
@@ -91,12 +117,23 @@ def oracle(prog: dict, b: dict) -> str | None:
     obs = b["obs"]
     if not obs["prepared"]:
         return None
-    return oracle_on(prog, b, g.log_view(obs["cluster"]), obs.get("resource_id"))
+    return oracle_on(prog, b, g.log_view(obs["cluster"]), obs.get("resource_id"),
+                     None if obs["raised"] else g.outcome_view(obs))
 
 
-def oracle_on(prog: dict, b: dict, entries: list, resource_id) -> str | None:
+def oracle_on(prog: dict, b: dict, entries: list, resource_id, outcome=None) -> str | None:
     """the clauses on the requests that belong to one function's reconcile, and on the resource id it reports"""
     want = expected_identity(b, prog)
+    if prog["namespaced"] and b["ns"] is None:
+        # apiConfig.namespace evaluates to nothing for a namespaced kind: PermFail, and nothing may reach the API
+        if entries:
+            e = entries[-1]
+            where = g.identity_of(e["body"])["namespace"] if e["method"] in ("POST", "PATCH") else e["nsArg"]
+            return (f"apiConfig.namespace evaluates to nothing for a namespaced kind, yet {e['method']} was sent "
+                    f"(namespace argument {e['nsArg']!r}, body namespace {where!r})")
+        if outcome is not None and outcome.get("c") != "permFail":
+            return f"apiConfig.namespace evaluates to nothing for a namespaced kind but the outcome is {outcome.get('c')}"
+        return None
     if isinstance(resource_id, dict):
         for k, v in (("apiVersion", b["apiVersion"]), ("kind", b["kind"]), ("plural", b["plural"]), ("name", b["name"])):
             if resource_id.get(k) != v:
@@ -195,11 +232,30 @@ def session_case(r) -> dict:
     return {"session": progs}
 
 
+def function_test_case(r) -> dict:
+    """one function; between its prepare and its reconcile koreo's own FunctionTest runner tests it (same process,
+    same kind) — with a currentResource that spells metadata.namespace out or leaves it to the function"""
+    namespaced = r.random() < 0.8
+    p = {"namespaced": namespaced, "tmplForm": "inline", "edits": [], "benign": [l for l in ("ov0",) if r.random() < 0.3],
+         "flags": {"owned": r.random() < 0.7}, "nameVia": r.random() < 0.5, "nsVia": namespaced and r.random() < 0.5,
+         "functionTest": {"namespace": r.random() < 0.4, "currentResource": r.random() < 0.85}}
+    for layer in g.LAYERS:
+        if r.random() < 0.2:
+            p["edits"].append({"layer": layer, "kind": r.choice(KINDS), "via": r.random() < 0.4})
+    return {"session": [p]}
+
+
 def run_session(case: dict) -> list:
     """[(prog as run, build+obs)] — every function against an empty cluster and then a drifted live object"""
     progs = with_prefix(case["session"], fresh_prefix())
+    per_pass = any(p.get("functionTest") for p in progs) and not case.get("reuseKind")
     out = []
     for first in (True, False):
+        if per_pass and not first:
+            # prepare -> FunctionTest -> reconcile is one sequence; the update-path pass starts it afresh with a
+            # kind of its own.  (Re-preparing a function AFTER a FunctionTest of its kind ran is a different
+            # sequence, which fails on the unchanged tree: see notes/C06.md, "reuseKind".)
+            progs = with_prefix(case["session"], fresh_prefix())
         for i, p in enumerate(progs):
             q = copy.deepcopy(p)
             q["stored"] = None if first else live_object_for(q, i)
@@ -217,7 +273,8 @@ def session_bad(case: dict):
     for q, b in run_session(case):
         bad = oracle(q, b)
         if bad:
-            return f"function {q['suffix']} ({q['apiVersion']}): {bad}"
+            what = "after a FunctionTest of it ran in the process" if q.get("functionTest") else q.get("apiVersion")
+            return f"function {q['suffix']} ({what}): {bad}"
     return None
 
 
@@ -231,7 +288,7 @@ def shrink_session(case: dict) -> dict:
         else:
             i += 1
     for p in small["session"]:
-        for k, v in (("edits", []), ("benign", []), ("tmplForm", "inline")):
+        for k, v in (("edits", []), ("benign", []), ("tmplForm", "inline"), ("nameVia", False), ("nsVia", False)):
             if p.get(k) != v:
                 trial = copy.deepcopy(small)
                 trial["session"][small["session"].index(p)][k] = v
@@ -382,6 +439,7 @@ def run(tier: str) -> int:
     progs = list(grid(full=(tier != "quick")))
     n_random = 300 if tier == "quick" else 5000
     progs += [random_program(r) for _ in range(n_random)]
+    progs += list(template_combos()) + list(empty_namespace_grid())
     work = []
     for i, p in enumerate(progs):
         for situation in ("absent", "drifted"):
@@ -414,6 +472,8 @@ def run(tier: str) -> int:
         ck.count(f"template:{prog['tmplForm']}")
         if obs["raised"]:
             ck.count("raised")
+        if "nsEmpty" in prog:
+            ck.count(f"namespace-evaluates-to:{prog['nsEmpty']!r}")
         if prog["edits"] and act in ("create", "patch"):
             ck.nontriv(g.dumps([prog["edits"], prog["namespaced"], prog["tmplForm"], act]))
         case = {"prog": prog}
@@ -448,8 +508,12 @@ def run(tier: str) -> int:
                         "request: method/endpoint/name/namespace-argument/body-identity")
     # ---- several functions of one kind in one process (same kind, different apiVersion)
     n_sessions = 60 if tier == "quick" else 600
-    for _ in range(n_sessions):
-        case = session_case(r)
+    n_ftests = 60 if tier == "quick" else 600
+    for k in range(n_sessions + n_ftests):
+        case = session_case(r) if k < n_sessions else function_test_case(r)
+        if k >= n_sessions:
+            ck.count("function-test-between:currentResource " +
+                     ("with" if case["session"][0]["functionTest"]["namespace"] else "without") + " namespace")
         runs = run_session(case)
         try:
             s_answers = drv.ask([b["model"] for _, b in runs])
@@ -458,12 +522,14 @@ def run(tier: str) -> int:
         reported = False
         for (q, b), ans in zip(runs, s_answers):
             ck.evaluated()
-            ck.count("session-run:" + q["apiVersion"])
+            ck.count("session-run:" + q.get("apiVersion", g.API_VERSION))
+            if obs.get("function_test") is not None:
+                ck.count("function-test-ran:" + str(obs["function_test"].get("prepared")))
             obs = b["obs"]
             req = g.impl_request(obs) if obs["prepared"] else None
             if isinstance(req, dict) and req["method"] in ("POST", "PATCH"):
-                ck.nontriv(g.dumps(["session", [p["apiVersion"] for p in case["session"]], q["suffix"], q["edits"],
-                                    req["method"]]))
+                ck.nontriv(g.dumps(["session", [p.get("apiVersion") for p in case["session"]], q["suffix"], q["edits"],
+                                    q.get("functionTest"), req["method"]]))
             bad = oracle(q, b)
             if bad and not reported:
                 reported = True
@@ -549,7 +615,9 @@ def run(tier: str) -> int:
              "edits per layer, skipIf, apiConfig through inputs, other names/namespaces, policies); each against an "
              "empty cluster and a drifted live object; plus sessions of 2-3 functions for the SAME kind but different "
              "apiVersion (group and/or version) prepared and reconciled one after the other in one process (request "
-             "`version=`, body apiVersion and the reported resource id must be each function's own); plus groups of 2-3 "
+             "`version=`, body apiVersion and the reported resource id must be each function's own); plus functions that "
+             "koreo's own FunctionTest runner tests (real prepare_function_test / run_function_test, currentResource with "
+             "or without metadata.namespace) between their prepare and their reconcile; plus groups of 2-3 "
              "reconciles of one kind (different names / namespaces, one function with different inputs or different "
              "functions) in flight together under the virtual-time loop with every API call suspending — every request "
              "must carry the identity of its own reconcile; non-trivial = a POST or PATCH was sent by a program with an "
